@@ -1,9 +1,9 @@
-//! C10: `heredoc` subcommand. Case field: <input>. Runs `brush_parser::tokenize_str` and prints
+//! C10: `c10_heredoc` subcommand. Case field: <input>. Runs `brush_parser::tokenize_str` and prints
 //! `OK (<kind> <text>)*` (kind O = operator, W = word) or `ERR <message>`.
 use crate::util::{hex, panic_msg, unhex_str};
 
 pub fn run(sub: &str, cases: &[Vec<String>]) -> bool {
-    if sub != "heredoc" {
+    if sub != "c10_heredoc" {
         return false;
     }
     for case in cases {
